@@ -7,6 +7,10 @@ Decided clauses:
   R2  dense fast paths are guarded: get_dense_property / set_dense_property / dense_indexed_properties_mut on an
       object taken from a register or argument are dominated by is_array() (writes additionally by the
       extensibility test); internal fresh arrays are the audited exceptions
+  R3  narrowing a double into the packed-int storage is bit exact: every f64→i32 cast in object/property_map.rs is
+      justified by a round-trip test on f64::to_bits (in the function or its closures), and no float `==`/`!=` compares
+      a double with a value widened back from i32 (that comparison cannot tell -0 from +0, so `a[i] = -0` would be
+      stored as +0 in an int-packed array only)
 Not decided: transition correctness of IndexedProperties, results of the Array.prototype methods.
 """
 from facts import (cn, callee, cname, roots, op_local, taint, arg_hits, place_fields, bool_switch, bool_origin)
@@ -148,6 +152,63 @@ def r2(db, rep):
     rep.floor("R2", "dense fast-path sites", n, 7)
 
 
+def _widened_from_i32(f, o):
+    l = op_local(o)
+    if l is None:
+        return False
+    for r in roots(f, l):
+        if r[0] == "call" and (callee(r[2]) or "").endswith("From<i32> for f64>::from"):
+            return True
+        if r[0] == "rv" and r[2].get("k") == "cast" and r[2].get("from") == "i32" and r[2].get("ty") == "f64":
+            return True
+    return False
+
+
+def r3(db, rep):
+    rep.rule("R3", "doubles enter the packed-int element storage only through a bit-exact (f64::to_bits) round-trip test; "
+                   "no float equality against a value widened back from i32 (blind to -0)")
+    ncast = 0
+    nfloat = 0
+    tops = {}
+    for f in db.fns.values():
+        if f.id.startswith("boa_engine::object::property_map::") and "::tests" not in f.id:
+            tops.setdefault(f.id.split("::{closure")[0], []).append(f)
+    for top, group in sorted(tops.items()):
+        bitexact = False
+        for g in group:
+            for b in g.reachable():
+                for s in g.blocks[b]["s"]:
+                    r = s["r"]
+                    if r.get("k") == "bin" and r.get("op") in ("Eq", "Ne") and r.get("ty") == "u64":
+                        def from_bits(o):
+                            l = op_local(o)
+                            return l is not None and any(x[0] == "call" and cn(x[2]).endswith("f64::to_bits")
+                                                         for x in roots(g, l))
+                        if from_bits(r["a"]) and from_bits(r["b"]):
+                            bitexact = True
+        for g in group:
+            k = 0
+            for b in g.reachable():
+                for s in g.blocks[b]["s"]:
+                    r = s["r"]
+                    if r.get("k") == "cast" and r.get("ck") == "FloatToInt" and r.get("from") == "f64" and r.get("ty") == "i32":
+                        ncast += 1
+                        rep.ob("R3", f"{cname(top)}:f64-as-i32:{k}:bit-exact-guard", bitexact,
+                               f"{cname(g.id)} narrows a double to i32 ({g.file}:{s.get('ln')}) but neither it nor its closures "
+                               f"compare f64::to_bits of the value with that of the widened result — a lossy value (-0, 2^31, "
+                               f"0.5) could be stored in the int-packed array", loc=f"{g.file}:{s.get('ln')}")
+                        k += 1
+                    if r.get("k") == "bin" and r.get("op") in ("Eq", "Ne") and r.get("ty") == "f64":
+                        nfloat += 1
+                        bad = _widened_from_i32(g, r["a"]) or _widened_from_i32(g, r["b"])
+                        rep.ob("R3", f"{cname(top)}:float-eq:{nfloat - 1}:not-a-roundtrip-test", not bad,
+                               f"{cname(g.id)} tests `n == f64::from(n as i32)` with a float comparison ({g.file}:{s.get('ln')}): "
+                               f"-0 == +0, so `a[i] = -0` on an int-packed array stores +0 (Object.is / 1/x observe it) while "
+                               f"every other storage form keeps -0", loc=f"{g.file}:{s.get('ln')}")
+    rep.floor("R3", "f64→i32 casts in object/property_map.rs", ncast, 2)
+
+
 def run(db, rep, tier):
     r1(db, rep)
     r2(db, rep)
+    r3(db, rep)
